@@ -4,5 +4,251 @@ Helper lemmas for Props/Utf8.lean.
 import StunVerif.Attr.Utf8
 import StunVerif.Spec.Utf8
 namespace StunVerif
+namespace Utf8L
+open Spec
 
+theorem u8_eq_iff (b : UInt8) (n : Nat) (h : n < 256) : b = UInt8.ofNat n ↔ b.toNat = n := by
+  rw [← UInt8.toNat_inj, UInt8.toNat_ofNat', Nat.mod_eq_of_lt h]
+
+theorem ofNat_eq (b : UInt8) (n : Nat) (h : n = b.toNat) : UInt8.ofNat n = b := by
+  subst h; simp
+
+/-! ### `utf8Head` in `Nat` terms: sufficient conditions -/
+
+theorem utf8Head_1 (b0 : UInt8) (rest : Bytes) (h : b0.toNat < 0x80) : utf8Head (b0 :: rest) = 1 := by
+  simp [utf8Head, UInt8.lt_iff_toNat_lt, h]
+
+theorem utf8Head_2 (b0 b1 : UInt8) (rest : Bytes) (h0 : 0xC2 ≤ b0.toNat ∧ b0.toNat ≤ 0xDF)
+    (h1 : 0x80 ≤ b1.toNat ∧ b1.toNat ≤ 0xBF) : utf8Head (b0 :: b1 :: rest) = 2 := by
+  have n1 : ¬ b0.toNat < 128 := by omega
+  simp [utf8Head, isCont, UInt8.lt_iff_toNat_lt, UInt8.le_iff_toNat_le, n1, h0, h1]
+
+theorem utf8Head_3 (b0 b1 b2 : UInt8) (rest : Bytes) (h0 : 0xE0 ≤ b0.toNat ∧ b0.toNat ≤ 0xEF)
+    (h1 : (if b0.toNat = 0xE0 then 0xA0 else 0x80) ≤ b1.toNat ∧
+      b1.toNat ≤ (if b0.toNat = 0xED then 0x9F else 0xBF))
+    (h2 : 0x80 ≤ b2.toNat ∧ b2.toNat ≤ 0xBF) : utf8Head (b0 :: b1 :: b2 :: rest) = 3 := by
+  have e1 : (b0 = 0xE0) ↔ b0.toNat = 0xE0 := u8_eq_iff b0 0xE0 (by decide)
+  have e2 : (b0 = 0xED) ↔ b0.toNat = 0xED := u8_eq_iff b0 0xED (by decide)
+  have n1 : ¬ b0.toNat < 128 := by omega
+  have n2 : ¬ (194 ≤ b0.toNat ∧ b0.toNat ≤ 223) := by omega
+  simp only [utf8Head, isCont, UInt8.lt_iff_toNat_lt, UInt8.le_iff_toNat_le, e1, e2]
+  by_cases c1 : b0.toNat = 0xE0 <;> by_cases c2 : b0.toNat = 0xED <;> simp [c1, c2] at h1 ⊢ <;>
+    simp [n1, n2, h0, h1, h2] <;> omega
+
+theorem utf8Head_4 (b0 b1 b2 b3 : UInt8) (rest : Bytes) (h0 : 0xF0 ≤ b0.toNat ∧ b0.toNat ≤ 0xF4)
+    (h1 : (if b0.toNat = 0xF0 then 0x90 else 0x80) ≤ b1.toNat ∧
+      b1.toNat ≤ (if b0.toNat = 0xF4 then 0x8F else 0xBF))
+    (h2 : 0x80 ≤ b2.toNat ∧ b2.toNat ≤ 0xBF) (h3 : 0x80 ≤ b3.toNat ∧ b3.toNat ≤ 0xBF) :
+    utf8Head (b0 :: b1 :: b2 :: b3 :: rest) = 4 := by
+  have e1 : (b0 = 0xF0) ↔ b0.toNat = 0xF0 := u8_eq_iff b0 0xF0 (by decide)
+  have e2 : (b0 = 0xF4) ↔ b0.toNat = 0xF4 := u8_eq_iff b0 0xF4 (by decide)
+  have n1 : ¬ b0.toNat < 128 := by omega
+  have n2 : ¬ (194 ≤ b0.toNat ∧ b0.toNat ≤ 223) := by omega
+  have n3 : ¬ (224 ≤ b0.toNat ∧ b0.toNat ≤ 239) := by omega
+  simp only [utf8Head, isCont, UInt8.lt_iff_toNat_lt, UInt8.le_iff_toNat_le, e1, e2]
+  by_cases c1 : b0.toNat = 0xF0 <;> by_cases c2 : b0.toNat = 0xF4 <;> simp [c1, c2] at h1 ⊢ <;>
+    simp [n1, n2, n3, h0, h1, h2, h3] <;> omega
+
+/-! ### `utf8Head` in `Nat` terms: necessary conditions -/
+
+theorem cond_2 (b0 b1 : UInt8) (rest : Bytes) (c1 : ¬ b0.toNat < 0x80)
+    (c2 : 0xC2 ≤ b0.toNat ∧ b0.toNat ≤ 0xDF) (h : utf8Head (b0 :: b1 :: rest) ≠ 0) :
+    0x80 ≤ b1.toNat ∧ b1.toNat ≤ 0xBF := by
+  simp [utf8Head, isCont, UInt8.lt_iff_toNat_lt, UInt8.le_iff_toNat_le, c1, c2] at h
+  exact h
+
+theorem cond_3 (b0 b1 b2 : UInt8) (rest : Bytes) (c1 : ¬ b0.toNat < 0x80)
+    (c2 : ¬ (0xC2 ≤ b0.toNat ∧ b0.toNat ≤ 0xDF)) (c3 : 0xE0 ≤ b0.toNat ∧ b0.toNat ≤ 0xEF)
+    (h : utf8Head (b0 :: b1 :: b2 :: rest) ≠ 0) :
+    ((if b0.toNat = 0xE0 then 0xA0 else 0x80) ≤ b1.toNat ∧
+      b1.toNat ≤ (if b0.toNat = 0xED then 0x9F else 0xBF)) ∧
+    0x80 ≤ b2.toNat ∧ b2.toNat ≤ 0xBF := by
+  have e1 : (b0 = 0xE0) ↔ b0.toNat = 0xE0 := u8_eq_iff b0 0xE0 (by decide)
+  have e2 : (b0 = 0xED) ↔ b0.toNat = 0xED := u8_eq_iff b0 0xED (by decide)
+  simp only [utf8Head, isCont, UInt8.lt_iff_toNat_lt, UInt8.le_iff_toNat_le, e1, e2] at h
+  by_cases d1 : b0.toNat = 0xE0 <;> by_cases d2 : b0.toNat = 0xED <;>
+    simp [d1, d2, c1, c2, c3] at h ⊢ <;> omega
+
+theorem cond_4 (b0 b1 b2 b3 : UInt8) (rest : Bytes) (c1 : ¬ b0.toNat < 0x80)
+    (c2 : ¬ (0xC2 ≤ b0.toNat ∧ b0.toNat ≤ 0xDF)) (c3 : ¬ (0xE0 ≤ b0.toNat ∧ b0.toNat ≤ 0xEF))
+    (c4 : 0xF0 ≤ b0.toNat ∧ b0.toNat ≤ 0xF4)
+    (h : utf8Head (b0 :: b1 :: b2 :: b3 :: rest) ≠ 0) :
+    ((if b0.toNat = 0xF0 then 0x90 else 0x80) ≤ b1.toNat ∧
+      b1.toNat ≤ (if b0.toNat = 0xF4 then 0x8F else 0xBF)) ∧
+    (0x80 ≤ b2.toNat ∧ b2.toNat ≤ 0xBF) ∧ 0x80 ≤ b3.toNat ∧ b3.toNat ≤ 0xBF := by
+  have e1 : (b0 = 0xF0) ↔ b0.toNat = 0xF0 := u8_eq_iff b0 0xF0 (by decide)
+  have e2 : (b0 = 0xF4) ↔ b0.toNat = 0xF4 := u8_eq_iff b0 0xF4 (by decide)
+  simp only [utf8Head, isCont, UInt8.lt_iff_toNat_lt, UInt8.le_iff_toNat_le, e1, e2] at h
+  by_cases d1 : b0.toNat = 0xF0 <;> by_cases d2 : b0.toNat = 0xF4 <;>
+    simp [d1, d2, c1, c2, c3, c4] at h ⊢ <;> omega
+
+/-- the first byte of a recognised head is in one of the four lead ranges -/
+theorem lead_cases (b0 : UInt8) (rest : Bytes) (h : utf8Head (b0 :: rest) ≠ 0) :
+    b0.toNat < 0x80 ∨ (0xC2 ≤ b0.toNat ∧ b0.toNat ≤ 0xDF) ∨ (0xE0 ≤ b0.toNat ∧ b0.toNat ≤ 0xEF) ∨
+      (0xF0 ≤ b0.toNat ∧ b0.toNat ≤ 0xF4) := by
+  by_cases c1 : b0.toNat < 0x80
+  · exact .inl c1
+  by_cases c2 : 0xC2 ≤ b0.toNat ∧ b0.toNat ≤ 0xDF
+  · exact .inr (.inl c2)
+  by_cases c3 : 0xE0 ≤ b0.toNat ∧ b0.toNat ≤ 0xEF
+  · exact .inr (.inr (.inl c3))
+  by_cases c4 : 0xF0 ≤ b0.toNat ∧ b0.toNat ≤ 0xF4
+  · exact .inr (.inr (.inr c4))
+  exfalso; apply h
+  simp [utf8Head, UInt8.lt_iff_toNat_lt, UInt8.le_iff_toNat_le, c1, c2, c3, c4]
+
+/-! ### decoding a recognised head -/
+
+theorem enc_1 (b0 : UInt8) (h : b0.toNat < 0x80) :
+    isScalar b0.toNat = true ∧ utf8Encode b0.toNat = [b0] := by
+  refine ⟨by simp [isScalar]; omega, ?_⟩
+  simp only [utf8Encode, if_pos h]
+  rw [ofNat_eq b0 _ rfl]
+
+theorem enc_2 (b0 b1 : UInt8) (h0 : 0xC2 ≤ b0.toNat ∧ b0.toNat ≤ 0xDF)
+    (h1 : 0x80 ≤ b1.toNat ∧ b1.toNat ≤ 0xBF) :
+    isScalar ((b0.toNat - 0xC0) * 64 + (b1.toNat - 0x80)) = true ∧
+      utf8Encode ((b0.toNat - 0xC0) * 64 + (b1.toNat - 0x80)) = [b0, b1] := by
+  refine ⟨by simp [isScalar]; omega, ?_⟩
+  generalize hc : (b0.toNat - 0xC0) * 64 + (b1.toNat - 0x80) = c
+  have n1 : ¬ c < 0x80 := by omega
+  have p2 : c < 0x800 := by omega
+  simp only [utf8Encode, if_neg n1, if_pos p2]
+  rw [ofNat_eq b0 _ (by omega), ofNat_eq b1 _ (by omega)]
+
+theorem enc_3 (b0 b1 b2 : UInt8) (h0 : 0xE0 ≤ b0.toNat ∧ b0.toNat ≤ 0xEF)
+    (h1 : (if b0.toNat = 0xE0 then 0xA0 else 0x80) ≤ b1.toNat ∧
+      b1.toNat ≤ (if b0.toNat = 0xED then 0x9F else 0xBF))
+    (h2 : 0x80 ≤ b2.toNat ∧ b2.toNat ≤ 0xBF) :
+    isScalar ((b0.toNat - 0xE0) * 4096 + (b1.toNat - 0x80) * 64 + (b2.toNat - 0x80)) = true ∧
+      utf8Encode ((b0.toNat - 0xE0) * 4096 + (b1.toNat - 0x80) * 64 + (b2.toNat - 0x80)) = [b0, b1, b2] := by
+  generalize hc : (b0.toNat - 0xE0) * 4096 + (b1.toNat - 0x80) * 64 + (b2.toNat - 0x80) = c
+  have hb1 : 0x80 ≤ b1.toNat ∧ b1.toNat ≤ 0xBF := by split at h1 <;> split at h1 <;> omega
+  have n1 : ¬ c < 0x80 := by split at h1 <;> omega
+  have n2 : ¬ c < 0x800 := by split at h1 <;> omega
+  have p3 : c < 0x10000 := by omega
+  refine ⟨?_, ?_⟩
+  · simp [isScalar]
+    split at h1 <;> split at h1 <;> omega
+  simp only [utf8Encode, if_neg n1, if_neg n2, if_pos p3]
+  rw [ofNat_eq b0 _ (by omega), ofNat_eq b1 _ (by omega), ofNat_eq b2 _ (by omega)]
+
+theorem enc_4 (b0 b1 b2 b3 : UInt8) (h0 : 0xF0 ≤ b0.toNat ∧ b0.toNat ≤ 0xF4)
+    (h1 : (if b0.toNat = 0xF0 then 0x90 else 0x80) ≤ b1.toNat ∧
+      b1.toNat ≤ (if b0.toNat = 0xF4 then 0x8F else 0xBF))
+    (h2 : 0x80 ≤ b2.toNat ∧ b2.toNat ≤ 0xBF) (h3 : 0x80 ≤ b3.toNat ∧ b3.toNat ≤ 0xBF) :
+    isScalar ((b0.toNat - 0xF0) * 262144 + (b1.toNat - 0x80) * 4096 + (b2.toNat - 0x80) * 64 +
+        (b3.toNat - 0x80)) = true ∧
+      utf8Encode ((b0.toNat - 0xF0) * 262144 + (b1.toNat - 0x80) * 4096 + (b2.toNat - 0x80) * 64 +
+        (b3.toNat - 0x80)) = [b0, b1, b2, b3] := by
+  generalize hc : (b0.toNat - 0xF0) * 262144 + (b1.toNat - 0x80) * 4096 + (b2.toNat - 0x80) * 64 +
+        (b3.toNat - 0x80) = c
+  have hb1 : 0x80 ≤ b1.toNat ∧ b1.toNat ≤ 0xBF := by split at h1 <;> split at h1 <;> omega
+  have n1 : ¬ c < 0x80 := by split at h1 <;> omega
+  have n2 : ¬ c < 0x800 := by split at h1 <;> omega
+  have n3 : ¬ c < 0x10000 := by split at h1 <;> omega
+  refine ⟨?_, ?_⟩
+  · simp [isScalar]
+    split at h1 <;> split at h1 <;> omega
+  simp only [utf8Encode, if_neg n1, if_neg n2, if_neg n3]
+  rw [ofNat_eq b0 _ (by omega), ofNat_eq b1 _ (by omega), ofNat_eq b2 _ (by omega), ofNat_eq b3 _ (by omega)]
+
+/-- a recognised head is the encoding of a scalar value -/
+theorem head_decode (bs : Bytes) (h : utf8Head bs ≠ 0) :
+    ∃ c, isScalar c = true ∧ bs = utf8Encode c ++ bs.drop (utf8Head bs) := by
+  match bs, h with
+  | [], h => simp [utf8Head] at h
+  | b0 :: rest, h =>
+    rcases lead_cases b0 rest h with c1 | c2 | c3 | c4
+    · obtain ⟨hs, he⟩ := enc_1 b0 c1
+      exact ⟨_, hs, by rw [utf8Head_1 b0 rest c1, he]; rfl⟩
+    · have n1 : ¬ b0.toNat < 0x80 := by omega
+      match rest, h with
+      | [], h => simp [utf8Head, UInt8.lt_iff_toNat_lt, UInt8.le_iff_toNat_le, n1, c2] at h
+      | b1 :: rest, h =>
+        have k1 := cond_2 b0 b1 rest n1 c2 h
+        obtain ⟨hs, he⟩ := enc_2 b0 b1 c2 k1
+        exact ⟨_, hs, by rw [utf8Head_2 b0 b1 rest c2 k1, he]; rfl⟩
+    · have n1 : ¬ b0.toNat < 0x80 := by omega
+      have n2 : ¬ (0xC2 ≤ b0.toNat ∧ b0.toNat ≤ 0xDF) := by omega
+      match rest, h with
+      | [], h => simp [utf8Head, UInt8.lt_iff_toNat_lt, UInt8.le_iff_toNat_le, n1, n2, c3] at h
+      | [_], h => simp [utf8Head, UInt8.lt_iff_toNat_lt, UInt8.le_iff_toNat_le, n1, n2, c3] at h
+      | b1 :: b2 :: rest, h =>
+        obtain ⟨k1, k2⟩ := cond_3 b0 b1 b2 rest n1 n2 c3 h
+        obtain ⟨hs, he⟩ := enc_3 b0 b1 b2 c3 k1 k2
+        exact ⟨_, hs, by rw [utf8Head_3 b0 b1 b2 rest c3 k1 k2, he]; rfl⟩
+    · have n1 : ¬ b0.toNat < 0x80 := by omega
+      have n2 : ¬ (0xC2 ≤ b0.toNat ∧ b0.toNat ≤ 0xDF) := by omega
+      have n3 : ¬ (0xE0 ≤ b0.toNat ∧ b0.toNat ≤ 0xEF) := by omega
+      match rest, h with
+      | [], h => simp [utf8Head, UInt8.lt_iff_toNat_lt, UInt8.le_iff_toNat_le, n1, n2, n3, c4] at h
+      | [_], h => simp [utf8Head, UInt8.lt_iff_toNat_lt, UInt8.le_iff_toNat_le, n1, n2, n3, c4] at h
+      | [_, _], h => simp [utf8Head, UInt8.lt_iff_toNat_lt, UInt8.le_iff_toNat_le, n1, n2, n3, c4] at h
+      | b1 :: b2 :: b3 :: rest, h =>
+        obtain ⟨k1, k2, k3⟩ := cond_4 b0 b1 b2 b3 rest n1 n2 n3 c4 h
+        obtain ⟨hs, he⟩ := enc_4 b0 b1 b2 b3 c4 k1 k2 k3
+        exact ⟨_, hs, by rw [utf8Head_4 b0 b1 b2 b3 rest c4 k1 k2 k3, he]; rfl⟩
+
+/-! ### the encoder's output is recognised -/
+
+theorem toNat_ofNat_small (n : Nat) (h : n < 256) : (UInt8.ofNat n).toNat = n := by
+  rw [UInt8.toNat_ofNat', Nat.mod_eq_of_lt h]
+
+theorem head_encode (c : Nat) (h : isScalar c = true) (rest : Bytes) :
+    utf8Head (utf8Encode c ++ rest) = (utf8Encode c).length := by
+  simp only [isScalar, Bool.or_eq_true, Bool.and_eq_true, decide_eq_true_eq] at h
+  unfold utf8Encode
+  split
+  · exact utf8Head_1 _ _ (by rw [toNat_ofNat_small _ (by omega)]; omega)
+  split
+  · exact utf8Head_2 _ _ _ (by rw [toNat_ofNat_small _ (by omega)]; omega)
+      (by rw [toNat_ofNat_small _ (by omega)]; omega)
+  split
+  · exact utf8Head_3 _ _ _ _ (by rw [toNat_ofNat_small _ (by omega)]; omega)
+      (by rw [toNat_ofNat_small (0xE0 + c / 4096) (by omega), toNat_ofNat_small _ (by omega)]; split <;> split <;> omega)
+      (by rw [toNat_ofNat_small _ (by omega)]; omega)
+  · exact utf8Head_4 _ _ _ _ _ (by rw [toNat_ofNat_small _ (by omega)]; omega)
+      (by rw [toNat_ofNat_small (0xF0 + c / 262144) (by omega), toNat_ofNat_small _ (by omega)]; split <;> split <;> omega)
+      (by rw [toNat_ofNat_small _ (by omega)]; omega)
+      (by rw [toNat_ofNat_small _ (by omega)]; omega)
+
+theorem encode_length_pos (c : Nat) : 0 < (utf8Encode c).length := by
+  unfold utf8Encode; split <;> (try split) <;> (try split) <;> simp
+
+/-! ### a left inverse of the encoder on scalar values -/
+
+def decode1 (bs : Bytes) : Nat :=
+  let g (i : Nat) : Nat := (bs.getD i 0).toNat
+  if g 0 < 0x80 then g 0
+  else if g 0 < 0xE0 then (g 0 - 0xC0) * 64 + (g 1 - 0x80)
+  else if g 0 < 0xF0 then (g 0 - 0xE0) * 4096 + (g 1 - 0x80) * 64 + (g 2 - 0x80)
+  else (g 0 - 0xF0) * 262144 + (g 1 - 0x80) * 4096 + (g 2 - 0x80) * 64 + (g 3 - 0x80)
+
+theorem decode_encode (c : Nat) (h : isScalar c = true) (rest : Bytes) :
+    decode1 (utf8Encode c ++ rest) = c := by
+  simp only [isScalar, Bool.or_eq_true, Bool.and_eq_true, decide_eq_true_eq] at h
+  unfold utf8Encode
+  split
+  · simp only [decode1, List.cons_append, List.nil_append, List.getD_cons_zero, List.getD_cons_succ]
+    rw [toNat_ofNat_small c (by omega)]
+    simp [*]
+  split
+  · simp only [decode1, List.cons_append, List.nil_append, List.getD_cons_zero, List.getD_cons_succ]
+    rw [toNat_ofNat_small (0xC0 + c / 64) (by omega), toNat_ofNat_small (0x80 + c % 64) (by omega)]
+    rw [if_neg (by omega), if_pos (by omega)]
+    omega
+  split
+  · simp only [decode1, List.cons_append, List.nil_append, List.getD_cons_zero, List.getD_cons_succ]
+    rw [toNat_ofNat_small (0xE0 + c / 4096) (by omega), toNat_ofNat_small (0x80 + c / 64 % 64) (by omega),
+      toNat_ofNat_small (0x80 + c % 64) (by omega)]
+    rw [if_neg (by omega), if_neg (by omega), if_pos (by omega)]
+    omega
+  · simp only [decode1, List.cons_append, List.nil_append, List.getD_cons_zero, List.getD_cons_succ]
+    rw [toNat_ofNat_small (0xF0 + c / 262144) (by omega), toNat_ofNat_small (0x80 + c / 4096 % 64) (by omega),
+      toNat_ofNat_small (0x80 + c / 64 % 64) (by omega), toNat_ofNat_small (0x80 + c % 64) (by omega)]
+    rw [if_neg (by omega), if_neg (by omega), if_neg (by omega)]
+    omega
+
+end Utf8L
 end StunVerif
